@@ -31,6 +31,20 @@
 //!  * whole `InstrumentState` of every non-matching instrument is bit-identical before / after;
 //!  * a repeated cancel requests nothing that is already cancel-in-flight (the reference marks what
 //!    the first command requested, independently of what the engine recorded).
+//!
+//! Further dimensions (hardening rounds):
+//!  * position `long 0.500000000001` (buy 1.500000000001, sell 1): a fractional quantity, `quantity == |position|` exactly;
+//!  * filters that name the same exchange / instrument / underlying twice ("exactly one" request per order /
+//!    per instrument is a statement about instruments, not about filter entries);
+//!  * the trading state is part of "any engine state": every first command also with trading ENABLED
+//!    (the scripted algo strategy generates nothing, so every delivery is the command's);
+//!  * the execution links are environment, the statement does not condition on their health: every first
+//!    command also with one (or both) link(s) failing. A request that could not be sent is not "in flight":
+//!    with a RECOVERABLE fault (unhealthy link) the requests for instruments on healthy links are still
+//!    demanded exactly, and a follow-up cancel on healed links must request exactly the orders whose first
+//!    request was not sent and none of those that were. With an UNRECOVERABLE fault (closed / missing link -
+//!    the engine is about to shut down) only the "nothing wrong is requested" rules are kept (no
+//!    completeness, no follow-up).
 
 use super::c03::{fresh_state, mk_engine};
 use super::common::*;
@@ -82,7 +96,7 @@ use std::{
 
 type Viol = (String, String);
 
-/// per-instrument configuration: order-kind bit mask, position (0 none, 1 long 2, 2 short 3), price known
+/// per-instrument configuration: order-kind bit mask, position (0 none, 1 long 2, 2 short 3, 3 long 0.500000000001), price known
 #[derive(Debug, Clone, Copy, PartialEq, Eq, Hash, Serialize, Deserialize)]
 pub struct IC {
     orders: u8,
@@ -119,6 +133,43 @@ pub enum Cmd {
     /// CancelOrders(InstrumentFilter::None)
     CancelAll,
 }
+
+/// state of one execution link while a command is processed
+#[derive(Debug, Clone, Copy, PartialEq, Eq, Hash, Serialize, Deserialize)]
+pub enum Link {
+    Healthy,
+    /// recoverable send error
+    Unhealthy,
+    /// receiver dropped: unrecoverable send error
+    Closed,
+    /// exchange tracked without execution link: unrecoverable lookup error
+    Missing,
+}
+impl Link {
+    fn mode(self) -> Option<TxMode> {
+        match self {
+            Link::Healthy => Some(TxMode::Healthy),
+            Link::Unhealthy => Some(TxMode::Unhealthy),
+            Link::Closed => Some(TxMode::Closed),
+            Link::Missing => None,
+        }
+    }
+}
+const HEALTHY: [Link; 2] = [Link::Healthy, Link::Healthy];
+/// link states with recoverable faults only: completeness on the healthy links and follow-ups are judged
+const RECOVERABLE: [[Link; 2]; 3] = [[Link::Unhealthy, Link::Healthy], [Link::Healthy, Link::Unhealthy], [Link::Unhealthy, Link::Unhealthy]];
+/// link states with an unrecoverable fault (also: an exchange WITHOUT link placed before a linked one)
+const UNRECOVERABLE: [[Link; 2]; 4] = [[Link::Missing, Link::Healthy], [Link::Healthy, Link::Missing], [Link::Closed, Link::Healthy], [Link::Healthy, Link::Closed]];
+
+/// environment of one command evaluation
+#[derive(Debug, Clone, Copy, PartialEq, Eq, Hash)]
+pub struct Env {
+    links: [Link; 2],
+    trading_enabled: bool,
+    /// this command follows a cancel command some of whose requests could not be sent
+    after_failed_send: bool,
+}
+const PLAIN: Env = Env { links: HEALTHY, trading_enabled: false, after_failed_send: false };
 
 fn one_or_many<T>(mut v: Vec<T>, many: bool) -> OneOrMany<T> {
     if v.len() == 1 && !many { OneOrMany::One(v.pop().unwrap()) } else { OneOrMany::Many(v) }
@@ -214,6 +265,13 @@ impl W {
             }
         }
         v.push(FSpec::Und(vec![(real[0].1, real[0].0), real[1]], false)); // swapped decoy + real
+        // the same element named twice (a filter is a set of scopes; "exactly one" is per order / instrument)
+        v.push(FSpec::Ex(vec![0, 0], false));
+        v.push(FSpec::Ex(vec![1, 0, 1], false));
+        v.push(FSpec::Ins(vec![1, 1], false));
+        v.push(FSpec::Ins(vec![3, 0, 3, 0], false));
+        v.push(FSpec::Und(vec![real[0], real[0]], false));
+        v.push(FSpec::Und(vec![real[2], real[1], real[2]], false));
         v
     }
 }
@@ -231,7 +289,7 @@ enum RS {
 #[derive(Debug, Clone, PartialEq, Eq, Hash)]
 struct RefIns {
     orders: BTreeMap<String, RS>,
-    pos: Option<(bool /*long*/, u32)>,
+    pos: Option<(bool /*long*/, Decimal)>,
     price: bool,
 }
 
@@ -251,7 +309,13 @@ fn ref_of(cfg: &[IC]) -> Vec<RefIns> {
                     orders.insert(cid, st);
                 }
             }
-            RefIns { orders, pos: match c.pos { 1 => Some((true, 2)), 2 => Some((false, 3)), _ => None }, price: c.price }
+            let pos = match c.pos {
+                1 => Some((true, Decimal::from(2))),
+                2 => Some((false, Decimal::from(3))),
+                3 => Some((true, Decimal::new(500_000_000_001, 12))),
+                _ => None,
+            };
+            RefIns { orders, pos, price: c.price }
         })
         .collect()
 }
@@ -291,7 +355,7 @@ fn ev_cancel(w: &W, i: usize, cid: &str, id: Option<String>) -> Event {
         state: RequestCancel { id: id.map(OrderId::new) },
     })))
 }
-fn ev_trade(w: &W, i: usize, n: u32, side: Side, qty: u32) -> Event {
+fn ev_trade(w: &W, i: usize, n: u32, side: Side, qty: Decimal) -> Event {
     EngineEvent::Account(AccountStreamEvent::Item(AccountEvent {
         exchange: ExchangeIndex(w.ex_of[i]),
         kind: AccountEventKind::Trade(Trade {
@@ -302,7 +366,7 @@ fn ev_trade(w: &W, i: usize, n: u32, side: Side, qty: u32) -> Event {
             time_exchange: t_plus(n as i64),
             side,
             price: Decimal::from(100),
-            quantity: Decimal::from(qty),
+            quantity: qty,
             fees: AssetFees::quote_fees(Decimal::ZERO),
         }),
     }))
@@ -340,12 +404,16 @@ fn script(w: &W, cfg: &[IC]) -> Vec<Event> {
         }
         match c.pos {
             1 => {
-                evs.push(ev_trade(w, i, 1, Side::Buy, 3));
-                evs.push(ev_trade(w, i, 2, Side::Sell, 1));
+                evs.push(ev_trade(w, i, 1, Side::Buy, Decimal::from(3)));
+                evs.push(ev_trade(w, i, 2, Side::Sell, Decimal::ONE));
             }
             2 => {
-                evs.push(ev_trade(w, i, 1, Side::Sell, 4));
-                evs.push(ev_trade(w, i, 2, Side::Buy, 1));
+                evs.push(ev_trade(w, i, 1, Side::Sell, Decimal::from(4)));
+                evs.push(ev_trade(w, i, 2, Side::Buy, Decimal::ONE));
+            }
+            3 => {
+                evs.push(ev_trade(w, i, 1, Side::Buy, Decimal::new(1_500_000_000_001, 12)));
+                evs.push(ev_trade(w, i, 2, Side::Sell, Decimal::ONE));
             }
             _ => {}
         }
@@ -389,7 +457,7 @@ fn reach(w: &W, cfg: &[IC]) -> Result<EState, String> {
             }
         }
         let pos = st.position.current.as_ref().map(|p| (p.side == Side::Buy, p.quantity_abs));
-        let want = r.pos.map(|(l, q)| (l, Decimal::from(q)));
+        let want = r.pos;
         if pos != want {
             return Err(format!("instrument {i}: position {pos:?}, intended {want:?}"));
         }
@@ -400,21 +468,39 @@ fn reach(w: &W, cfg: &[IC]) -> Result<EState, String> {
     Ok(es)
 }
 
-/// Execute one command on the real engine (fresh healthy links around the given state); evaluate the
-/// oracle against `refm` and advance `refm`. Returns the new engine state and a hash of the deliveries.
-fn eval(w: &W, es: &EState, refm: &mut [RefIns], f: &FSpec, cmd: Cmd, out: &mut Vec<Viol>) -> Option<(EState, u64)> {
+/// Execute one command on the real engine (fresh links in the states `env.links` around the given state, trading
+/// enabled first if `env.trading_enabled`); evaluate the oracle against `refm` and advance `refm`. Returns the new engine state and a hash of the deliveries.
+fn eval(w: &W, es: &EState, refm: &mut [RefIns], f: &FSpec, cmd: Cmd, env: Env, out: &mut Vec<Viol>) -> Option<(EState, u64)> {
     let all = FSpec::None;
     let f = if cmd == Cmd::CancelAll { &all } else { f };
     let fk = f.kind();
-    let healthy = vec![Some(TxMode::Healthy); w.n_ex];
-    let (mut engine, txs) = mk_engine(&w.instruments, es.clone(), &healthy, ScriptStrategy::default(), ScriptRisk::default());
+    let out_start = out.len();
+    let modes: Vec<Option<TxMode>> = env.links.iter().map(|l| l.mode()).collect();
+    // can a request for instrument i be sent at all? / is completeness demanded for the sendable ones?
+    let sendable = |i: usize| env.links[w.ex_of[i]] == Link::Healthy;
+    let faulty = env.links != HEALTHY;
+    let complete = env.links.iter().all(|l| matches!(l, Link::Healthy | Link::Unhealthy));
+    // abstract context of the rule, part of the signature (empty in the plain case: signatures stay stable)
+    let tag = if env.after_failed_send {
+        "/after-failed-send"
+    } else if faulty {
+        "/other-link-faulty"
+    } else if env.trading_enabled {
+        "/trading-enabled"
+    } else {
+        ""
+    };
+    let (mut engine, txs) = mk_engine(&w.instruments, es.clone(), &modes, ScriptStrategy::default(), ScriptRisk::default());
+    if env.trading_enabled {
+        let _ = engine.process(EngineEvent::TradingStateUpdate(TradingState::Enabled));
+    }
     let command = match cmd {
         Cmd::Close => Command::ClosePositions(w.filter(f)),
         _ => Command::CancelOrders(w.filter(f)),
     };
     let cname = if cmd == Cmd::Close { "close-positions" } else { "cancel-orders" };
     if catch_unwind(AssertUnwindSafe(|| engine.process(EngineEvent::Command(command)))).is_err() {
-        out.push((format!("C19/{cname}/{fk}/panic"), format!("Engine::process panicked on {cmd:?} {f:?}")));
+        out.push((format!("C19/{cname}/{fk}/panic{tag}"), format!("Engine::process panicked on {cmd:?} {f:?} {env:?}")));
         return None;
     }
     let post = engine.state;
@@ -427,9 +513,10 @@ fn eval(w: &W, es: &EState, refm: &mut [RefIns], f: &FSpec, cmd: Cmd, out: &mut 
             }
         }
     }
-    let sig = |what: &str| format!("C19/{cname}/{what}");
-    let sigf = |what: &str| format!("C19/{cname}/{fk}/{what}"); // scope rules name the filter kind
-    let h = hash_of(&format!("{delivered:?}"));
+    let sig = |what: &str| format!("C19/{cname}/{what}{tag}");
+    let sigf = |what: &str| format!("C19/{cname}/{fk}/{what}{tag}"); // scope rules name the filter kind
+    let h = hash_of(&format!("{delivered:?} {env:?}"));
+    let ctx_txt = if tag.is_empty() { String::new() } else { format!(" [{env:?}]") };
     // scope defects (request outside the filter / matching instrument skipped) are one family: one signature
     let mut scope: Vec<String> = Vec::new();
     let mut outside = vec![false; w.n_ins];
@@ -461,7 +548,7 @@ fn eval(w: &W, es: &EState, refm: &mut [RefIns], f: &FSpec, cmd: Cmd, out: &mut 
                 if o.state.side != want_side {
                     out.push((sig("not-opposite-side"), format!("{f:?}: instrument {i} is {} but the closing order is {:?}", if long { "long" } else { "short" }, o.state.side)));
                 }
-                if o.state.quantity != Decimal::from(q) {
+                if o.state.quantity != q {
                     out.push((sig("wrong-quantity"), format!("{f:?}: instrument {i} holds {q} but the closing order has quantity {}", o.state.quantity)));
                 }
                 if *l != w.ex_of[i] || o.key.exchange.index() != w.ex_of[i] {
@@ -475,7 +562,7 @@ fn eval(w: &W, es: &EState, refm: &mut [RefIns], f: &FSpec, cmd: Cmd, out: &mut 
             refm[i].orders.insert(o.key.cid.0.to_string(), RS::InFlight);
         }
         for i in 0..w.n_ins {
-            if w.matches(f, i) && refm[i].pos.is_some() && refm[i].price && seen[i] == 0 {
+            if w.matches(f, i) && refm[i].pos.is_some() && refm[i].price && seen[i] == 0 && sendable(i) && complete {
                 scope.push(format!("instrument {i} matches, holds {:?} and has a price, but no closing order was delivered", refm[i].pos));
             }
         }
@@ -526,7 +613,18 @@ fn eval(w: &W, es: &EState, refm: &mut [RefIns], f: &FSpec, cmd: Cmd, out: &mut 
             }
         }
         for i in 0..w.n_ins {
-            if !w.matches(f, i) {
+            // requests for an instrument behind a failing link cannot be sent: its orders are NOT in flight
+            // afterwards, the reference leaves them as they are
+            if !w.matches(f, i) || !sendable(i) {
+                continue;
+            }
+            if !complete {
+                // unrecoverable fault elsewhere: completeness is not demanded; what was requested is in flight
+                for (cid, st) in refm[i].orders.iter_mut() {
+                    if *st != RS::Cancelling && seen.contains_key(&(i, cid.clone())) {
+                        *st = RS::Cancelling;
+                    }
+                }
                 continue;
             }
             // a matching instrument none of whose live orders got a cancel was skipped as a whole (scope defect);
@@ -562,6 +660,9 @@ fn eval(w: &W, es: &EState, refm: &mut [RefIns], f: &FSpec, cmd: Cmd, out: &mut 
             }
         }
     }
+    for v in out[out_start..].iter_mut() {
+        v.1.push_str(&ctx_txt);
+    }
     Some((post, h))
 }
 
@@ -573,8 +674,46 @@ static UNREACHED: std::sync::Mutex<(u64, Option<String>)> = std::sync::Mutex::ne
 
 const SECOND: [Cmd; 3] = [Cmd::Cancel, Cmd::Close, Cmd::CancelAll];
 
-fn case_json(cfg: &[IC], f: &FSpec, seq: &[Cmd]) -> Value {
-    json!({"engine": "config-sweep", "cfg": cfg, "filter": f, "seq": seq})
+fn case_json(cfg: &[IC], f: &FSpec, seq: &[Cmd], env: Env) -> Value {
+    // `links` / `trading_enabled` describe the environment of the FIRST command; follow-ups run on healthy links
+    json!({"engine": "config-sweep", "cfg": cfg, "filter": f, "seq": seq, "links": env.links, "trading_enabled": env.trading_enabled})
+}
+
+/// One first command under `env`, then (if it was clean) the follow-ups `seconds` on healthy links.
+#[allow(clippy::too_many_arguments)]
+fn sweep_first(
+    ctx: &Ctx, w: &W, cfg: &[IC], es0: &EState, ref0: &[RefIns], f: &FSpec, first: Cmd, env: Env, seconds: &[Cmd],
+    distinct: &mut std::collections::HashSet<u64>,
+) -> (u64, bool) {
+    let mut n = 1u64;
+    let mut r1 = ref0.to_vec();
+    let mut out = Vec::new();
+    let res = eval(w, es0, &mut r1, f, first, env, &mut out);
+    let first_clean = out.is_empty();
+    for (sig, detail) in out.drain(..) {
+        ctx.violate(sig, detail, case_json(cfg, f, &[first], env));
+    }
+    let Some((es1, h1)) = res else { return (n, false) };
+    // after a flagged command reference and engine may disagree: its follow-ups would only cascade
+    if !first_clean {
+        return (n, false);
+    }
+    let mut clean = true;
+    distinct.insert(h1);
+    let env2 = Env { links: HEALTHY, trading_enabled: false, after_failed_send: env.links != HEALTHY };
+    for second in seconds {
+        let mut r2 = r1.clone();
+        let res2 = eval(w, &es1, &mut r2, f, *second, env2, &mut out);
+        n += 1;
+        for (sig, detail) in out.drain(..) {
+            clean = false;
+            ctx.violate(sig, detail, case_json(cfg, f, &[first, *second], env));
+        }
+        if let Some((_, h2)) = res2 {
+            distinct.insert(h1 ^ h2.rotate_left(17));
+        }
+    }
+    (n, clean)
 }
 
 /// all command sequences for one configuration; returns number of command evaluations
@@ -598,32 +737,28 @@ fn sweep_config(ctx: &Ctx, w: &W, filters: &[FSpec], cfg: &[IC], distinct: &mut 
     let mut n = 0u64;
     for f in filters {
         for first in [Cmd::Cancel, Cmd::Close] {
-            let mut r1 = ref0.clone();
-            let mut out = Vec::new();
-            let res = eval(w, &es0, &mut r1, f, first, &mut out);
-            n += 1;
-            let first_clean = out.is_empty();
-            for (sig, detail) in out.drain(..) {
-                ctx.violate(sig, detail, case_json(cfg, f, &[first]));
-            }
-            let Some((es1, h1)) = res else { continue };
-            // after a flagged command reference and engine may disagree: its follow-ups would only cascade
-            if !first_clean {
+            // healthy links, trading disabled: the command, then every follow-up
+            let (k, plain_clean) = sweep_first(ctx, w, cfg, &es0, &ref0, f, first, PLAIN, &SECOND, distinct);
+            n += k;
+            // a defect that already shows in the plain environment would only be repeated (under further
+            // signatures) by the environment variants of the same (state, filter, command)
+            if !plain_clean {
                 continue;
             }
-            distinct.insert(h1);
-            for second in SECOND {
-                let mut r2 = r1.clone();
-                let res2 = eval(w, &es1, &mut r2, f, second, &mut out);
-                n += 1;
-                for (sig, detail) in out.drain(..) {
-                    ctx.violate(sig, detail, case_json(cfg, f, &[first, second]));
-                }
-                if let Some((_, h2)) = res2 {
-                    distinct.insert(h1 ^ h2.rotate_left(17));
-                }
+            // healthy links, trading enabled
+            n += sweep_first(ctx, w, cfg, &es0, &ref0, f, first, Env { trading_enabled: true, ..PLAIN }, &[], distinct).0;
+            // recoverable link faults: after a cancel command the follow-up cancels on healed links must request
+            // exactly what could not be sent (after a close command the statement does not say whether an
+            // unsent closing order is "tracked": no follow-up)
+            let follow: &[Cmd] = if first == Cmd::Cancel { &[Cmd::Cancel, Cmd::CancelAll] } else { &[] };
+            for links in RECOVERABLE {
+                n += sweep_first(ctx, w, cfg, &es0, &ref0, f, first, Env { links, ..PLAIN }, follow, distinct).0;
             }
-            samples.offer(|| case_json(cfg, f, &[first, Cmd::Cancel]));
+            // unrecoverable link faults: only "nothing wrong is requested"
+            for links in UNRECOVERABLE {
+                n += sweep_first(ctx, w, cfg, &es0, &ref0, f, first, Env { links, ..PLAIN }, &[], distinct).0;
+            }
+            samples.offer(|| case_json(cfg, f, &[first, Cmd::Cancel], PLAIN));
         }
     }
     n
@@ -659,7 +794,7 @@ fn menu(thorough: bool) -> Vec<IC> {
 fn all_ics() -> Vec<IC> {
     let mut v = Vec::new();
     for orders in 0u8..32 {
-        for pos in 0u8..3 {
+        for pos in 0u8..4 {
             for price in [false, true] {
                 v.push(ic(orders, pos, price));
             }
@@ -754,17 +889,20 @@ pub fn run(ctx: &Ctx) -> Outcome {
             "configurations": cfgs.len(),
             "configurations_not_reached_by_the_setup_events": unreached,
             "filters": filters.len(),
-            "command_sequences_per_configuration_and_filter": 8,
+            "command_sequences_per_configuration_and_filter": 30,
+            "command_sequences_breakdown": "healthy links/trading disabled: 2 first x (1 + 3 follow-ups) = 8; trading enabled: 2; 3 recoverable link-fault patterns x (cancel + 2 follow-ups on healed links, close) = 12; 4 unrecoverable link-fault patterns x 2 = 8",
             "distinct_nontrivial": dn,
             "exhaustive": true,
-            "rule": "for every reached engine state x filter: CancelOrders / ClosePositions, then CancelOrders / ClosePositions / CancelOrders(None) again; deliveries in the link logs == requests the reference model derives from the configuration and the definition-level filter predicate; instruments outside the filter bit-identical",
-            "bounds": {"instruments": 4, "exchanges": 2, "underlyings": 3, "per_instrument_states_total": 192,
+            "rule": "for every reached engine state x filter: CancelOrders / ClosePositions, then CancelOrders / ClosePositions / CancelOrders(None) again; deliveries in the link logs == requests the reference model derives from the configuration and the definition-level filter predicate; instruments outside the filter bit-identical; the first command also with trading enabled and under 7 link-fault patterns (recoverable: deliveries on the healthy links exact, follow-up cancels on healed links request exactly what was not sent; unrecoverable: nothing wrong requested)",
+            "bounds": {"instruments": 4, "exchanges": 2, "underlyings": 3, "per_instrument_states_total": 256,
                        "menu_size": menu(ctx.tier == crate::core::Tier::Thorough).len()},
             "samples": samples.take(),
         }),
         assumptions: vec![
             "engine states are those reachable by SendOpenRequests / order snapshots / SendCancelRequests / trades / market trades on healthy links with trading disabled".into(),
-            "4 instruments on 2 exchanges; full product of a per-instrument menu plus all 192 per-instrument states on each instrument against a background".into(),
+            "4 instruments on 2 exchanges; full product of a per-instrument menu plus all 256 per-instrument states (32 order sets x {none, long 2, short 3, long 0.500000000001} x price known/unknown) on each instrument against a background".into(),
+            "a request that could not be sent (failing execution link) is not in flight: the order is still 'not already being cancelled'; with a recoverable fault on one link the requests for the other link are still demanded exactly; with an unrecoverable fault (engine about to shut down) only wrong requests are flagged".into(),
+            "a filter that names an element twice has the same scope as the filter naming it once".into(),
             "the close-positions strategy is close_open_positions_with_market_orders with a deterministic client order id per instrument".into(),
             "only side, quantity, instrument and exchange of a closing order are demanded (the statement does not fix kind / price / time in force)".into(),
         ],
@@ -776,6 +914,9 @@ pub fn replay(ctx: &Ctx, case: &Value) {
     let cfg: Vec<IC> = serde_json::from_value(case["cfg"].clone()).expect("replay: cfg");
     let f: FSpec = serde_json::from_value(case["filter"].clone()).expect("replay: filter");
     let seq: Vec<Cmd> = serde_json::from_value(case["seq"].clone()).expect("replay: seq");
+    // cases recorded before the environment dimensions existed carry neither key: plain environment
+    let links: [Link; 2] = serde_json::from_value(case["links"].clone()).unwrap_or(HEALTHY);
+    let trading_enabled = case["trading_enabled"].as_bool().unwrap_or(false);
     let mut es = match reach(&w, &cfg) {
         Ok(es) => es,
         Err(e) => {
@@ -785,9 +926,14 @@ pub fn replay(ctx: &Ctx, case: &Value) {
     };
     let mut refm = ref_of(&cfg);
     for (k, cmd) in seq.iter().enumerate() {
+        let env = if k == 0 {
+            Env { links, trading_enabled, after_failed_send: false }
+        } else {
+            Env { links: HEALTHY, trading_enabled: false, after_failed_send: links != HEALTHY }
+        };
         let mut out = Vec::new();
-        let res = eval(&w, &es, &mut refm, &f, *cmd, &mut out);
-        println!("replay step {k}: {cmd:?} {f:?} -> {} violation(s)", out.len());
+        let res = eval(&w, &es, &mut refm, &f, *cmd, env, &mut out);
+        println!("replay step {k}: {cmd:?} {f:?} {env:?} -> {} violation(s)", out.len());
         for (sig, detail) in out {
             println!("    {sig}: {detail}");
             ctx.violate(sig, detail, case.clone());
